@@ -201,6 +201,97 @@ pub fn one(tier: &str, idx: usize) -> i32 {
   0
 }
 
+/// Wire level: the same question one stage earlier, where a DATA submessage becomes a cache change.  All
+/// in-order sequences over {good DATA, eight kinds of DATA the Reader cannot turn into an ordinary sample}
+/// from one writer into a real reliable Reader; then a HEARTBEAT.  Whatever the Reader makes of an odd one,
+/// it has to count as received: every good sample is handed over, in order, and the ACKNACK asks for nothing.
+fn wire_level(rep: &mut Report, maxl: usize) {
+  use rustdds::verif::{
+    sim_reader::{wport, RCfg, SimReader},
+    wire::{Sub, ODD_VARIANTS},
+  };
+  let a = 1 + ODD_VARIANTS as usize; // symbol 0 = good, 1.. = odd variant
+  let mut seqs: Vec<Vec<u8>> = vec![];
+  for len in 1..=maxl {
+    for i in 0..a.pow(len as u32) {
+      let mut x = i;
+      let mut q = vec![];
+      for _ in 0..len {
+        q.push((x % a) as u8);
+        x /= a;
+      }
+      if q.iter().any(|s| *s > 0) {
+        seqs.push(q);
+      }
+    }
+  }
+  let res = crate::engine::par_map(seqs.len(), 16, |i| {
+    let q = &seqs[i];
+    let r = std::panic::catch_unwind(|| -> Result<(), (String, String)> {
+      let mut sim = SimReader::new(RCfg { reliable: true, history: 0, nwriters: 1, frag_size: 1024 });
+      for (j, sym) in q.iter().enumerate() {
+        let sn = j as i64 + 1;
+        let b = if *sym == 0 { sim.data_bytes(0, sn, 1, 0, true) } else { sim.odd_bytes(0, sn, *sym - 1) };
+        sim.inject(&b);
+      }
+      let n = q.len() as i64;
+      let _ = sim.sent();
+      let hb = sim.hb_bytes(0, 1, n, 1, false);
+      sim.inject(&hb);
+      let mut base = None;
+      let mut requested: Vec<i64> = vec![];
+      for (port, p) in sim.sent() {
+        if port == wport(0) {
+          for sub in p.subs {
+            if let Sub::AckNack { base: b, set, .. } = sub {
+              base = Some(b);
+              requested = set;
+            }
+          }
+        }
+      }
+      // the application drains the reader; an unintelligible change may be reported as an error, once each
+      let mut handed: Vec<i64> = vec![];
+      for _ in 0..q.len() + 3 {
+        match sim.take(usize::MAX) {
+          Ok(v) => {
+            if v.is_empty() {
+              break;
+            }
+            handed.extend(v.iter().filter(|t| t.is_value && t.k == 1).map(|t| t.sn));
+          }
+          Err(_) => {}
+        }
+      }
+      let good: Vec<i64> = q.iter().enumerate().filter(|(_, s)| **s == 0).map(|(j, _)| j as i64 + 1).collect();
+      if handed != good {
+        let first_odd = q.iter().position(|s| *s > 0).map(|p| q[p] - 1).unwrap_or(0);
+        return Err((format!("C09:wire:not-delivered:variant{first_odd}"), format!("good samples {good:?} arrived in order, the reader handed over {handed:?}")));
+      }
+      if base != Some(n + 1) || !requested.is_empty() {
+        let stuck = base.unwrap_or(0);
+        let v = if stuck >= 1 && stuck <= n { q[(stuck - 1) as usize] as i64 - 1 } else { -1 };
+        return Err((format!("C09:wire:stuck:variant{v}"), format!("after DATA 1..{n} and HEARTBEAT(1,{n}) the reader answered ACKNACK base {base:?} requesting {requested:?}: it still waits for a change that has arrived")));
+      }
+      Ok(())
+    });
+    match r {
+      Ok(x) => x,
+      Err(_) => Err(("C09:wire:panic".into(), format!("panic: {}", crate::engine::take_last_panic().unwrap_or_default()))),
+    }
+  });
+  let mut n = 0u64;
+  for (i, r) in res.into_iter().enumerate() {
+    n += 1;
+    if let Err((key, msg)) = r {
+      let names: Vec<String> = seqs[i].iter().map(|s| if *s == 0 { "good".into() } else { format!("odd{}", s - 1) }).collect();
+      rep.violation(&key, json!({"layer": "wire", "sequence": seqs[i]}), &format!("DATA sequence {names:?} (sn 1.., in order) into a reliable reader: {msg}"));
+    }
+  }
+  rep.set("wire_level_sequences", json!(n));
+  rep.add_u64("traces_validated_against_impl", n);
+}
+
 pub fn run(tier: &str) -> i32 {
   let mut rep = Report::new("C09", tier, "model_checking");
   let al = alphabet();
@@ -252,7 +343,8 @@ pub fn run(tier: &str) -> i32 {
   rep.set("distinct_nontrivial", json!(classes.len()));
   rep.set("exhaustive", json!(skipped == 0));
   rep.set("cases_skipped_after_fault_budget", json!(skipped));
-  rep.set("rule", json!(format!("all sequences of length 1..={maxl} over {} symbols (2 good values of 2 writers, dispose-by-key-hash, 4 unintelligible kinds x 2 writers) x {{reliable, best-effort}} x {{with_key, no_key}} x 5 access forms, each in a watched subprocess shard (6 s per case, 4 GiB address space); distinct_nontrivial = distinct (reader kind, form, length, number of unintelligible changes) classes among a 1/97 sample of the cases", al.len())));
+  wire_level(&mut rep, if tier == "thorough" { 5 } else { 4 });
+  rep.set("rule", json!(format!("wire level: all in-order DATA sequences of length 1..=4 (thorough 5) over {{good, 8 kinds a Reader cannot turn into an ordinary sample: dispose / unregister / no-flag status / no status info by unknown key hash, neither payload nor inline QoS, empty serialized key, unknown representation, undecodable payload}} into a real reliable Reader, then a HEARTBEAT: every good sample handed over in order, ACKNACK base past everything and requesting nothing. Cache level: all sequences of length 1..={maxl} over {} symbols (2 good values of 2 writers, dispose-by-key-hash, 4 unintelligible kinds x 2 writers) x {{reliable, best-effort}} x {{with_key, no_key}} x 5 access forms, each in a watched subprocess shard (6 s per case, 4 GiB address space); distinct_nontrivial = distinct (reader kind, form, length, number of unintelligible changes) classes among a 1/97 sample of the cases", al.len())));
   rep.assumptions = vec![
     "Changes are injected into the real TopicCache as Reader::make_cache_change does; the access is repeated until it reports 'nothing more' (at most number of changes + 3 calls)".into(),
     "A dispose by key hash is intelligible iff the same writer sent a value of that key earlier; if only another writer did, either outcome is accepted (cross-writer processing order is not fixed)".into(),
